@@ -210,7 +210,9 @@ def check(report, tier, seed):
         base = gen.ProgGen(rng, n_wires=3, depth=1, allow_div=False).build()
     bl = ["b0 lex %s" % lib.hexs(base)]
     btoks = [l.split(" ", 3)[3] for l in lib.run_cases(harness, bl)["b0"] if l.startswith("tok ")]
-    trivia = [" ", "\n", "\r\n", "\r", "\t", " # c\n", " // c ❤\n", "/* c */", "/**/", "/* a * b **/", "/* / */", "/*\n*/", "/*/ x */", " /* é */ ", " ", "　"]
+    trivia = [" ", "\n", "\r\n", "\r", "\t", " # c\n", " // c ❤\n", "/* c */", "/**/", "/* a * b **/", "/* / */", "/*\n*/", "/*/ x */", " /* é */ ", " ", "　",
+              # comments full of multi-byte characters, directly followed by the next token
+              "/*é*/", "/*停机指令：执行到此结束。*/", "/*❤❤❤❤❤❤*/", "/* 𝐱𝟙 */", "#é❤\n", "//停机\r"]
     tl, tcases = [], {}
     for j in range(300 if tier == "quick" else 6000):
         # re-render the program from its tokens with random trivia between every pair
